@@ -5,10 +5,14 @@ CONSTANTS
   Nows = {1, 2, 3}
   Committees = {0, 1}
   Sizes = {8}
-  Targets = {2, 16}
+  Targets = {2}
   HVals = {0, 1}
   HMod = 8
   MaxDuties = 2
   MaxSubs = 1
-INVARIANTS TypeOK AllFutureSubscribed AggregatorRuleExact InfoPrefersAggregator EveryAggregatorCommitteeScheduled NoAggregationForPastSlot
+  SPE = 2
+  Ep = 1
+  MaxRefresh = 1
+  MaxChanges = 0
+INVARIANTS TypeOK AllFutureSubscribed AggregatorRuleExact InfoPrefersAggregator InfoInForceComplete EveryAggregatorCommitteeScheduled NoAggregationForPastSlot
 CHECK_DEADLOCK FALSE
